@@ -185,7 +185,8 @@ def configs(draw, kind="wf"):
     worker = draw(st.sampled_from(["debug", "cf"] if kind == "wf" else ["debug", "debug", "cf"]))
     cfg = dict(
         worker=worker,
-        n_procs=draw(st.integers(1, 2)) if worker == "cf" else None,
+        n_procs=draw(st.integers(1, 3)) if worker == "cf" else None,
+        worker_as_object=draw(st.booleans()),
         n_readonly=draw(st.integers(0, 2)),
         ro_has_result=draw(st.booleans()),
         max_concurrent=draw(st.sampled_from([None, None, 1, 2, 3])),
